@@ -86,6 +86,15 @@ def table_of(b, t):
     return d
 
 
+def roots_for_inputs(prog):
+    return [k for k in prog.bodies if k.startswith(P) and prog.bodies[k].kind != "Closure"]
+
+
+def shape_ok_gate(b, call_bi, target_bi):
+    import shape
+    return [1] if shape.gated_by_ok(b, call_bi, target_bi) else []
+
+
 def run(rep, tier="quick", replay=None, evidence_dir=None, collect_only=False):
     prog = Program(factsmod.extract())
     rep.rule("C20.R1", "parse_list returns schemas in input order (loop over input_order, no map iteration)")
@@ -177,6 +186,32 @@ def run(rep, tier="quick", replay=None, evidence_dir=None, collect_only=False):
             a = [b.opdesc(x) for x in newp[0][1]["args"]]
             okn = a[0].endswith("input_schemas") and a[1].endswith("input_order")
         rep.ob("C20.R2", "%s: Parser::new receives input_schemas and input_order" % short, okn, "", b.loc())
+
+    # ------------------------------------------------------------ R5 sibling agreement on how an input is parsed
+    rep.rule("C20.R5", "every input schema is parsed the same way whichever path reaches it first (no enclosing namespace), and all inputs are registered before the main schema of parse_str_with_list is parsed")
+    n5 = 0
+    for k in sorted(roots_for_inputs(prog)):
+        b = prog.bodies[k]
+        rm = [(bi, t) for bi, t in calls_named(b, "std::collections::HashMap::<K, V, S, A>::remove", "std::collections::HashMap::<K, V, S, A>::remove_entry") if "input_schemas" in b.opdesc(t["args"][0])]
+        if not rm:
+            continue
+        for pbi, pt in calls_named(b, P + "parse"):
+            if not any(b.dominates(r[0], pbi) for r in rm):
+                continue
+            n5 += 1
+            ns = pt["args"][2]
+            sd = b.single_def(op_local(ns)) if op_local(ns) is not None else None
+            is_none = bool(sd and sd[2] == "assign" and sd[3]["r"] == "agg" and sd[3].get("adt") == "std::option::Option" and sd[3].get("variant") == "None")
+            rep.ob("C20.R5", "%s parses the input it took from input_schemas with no enclosing namespace" % b.path, is_none,
+                   "an input schema parsed on demand would inherit the referrer's namespace: its full names then depend on which schema (hash order) reaches it first", b.loc(pbi))
+    rep.floor("C20.R5", "sites that parse an input taken from input_schemas", n5, 2)
+    wl = prog.bodies.get("schema::Schema::parse_str_with_list")
+    if wl is not None:
+        pis = calls_named(wl, P + "parse_input_schemas")
+        pm = calls_named(wl, P + "parse")
+        rep.ob("C20.R5", "parse_str_with_list registers every input before it parses the main schema", len(pis) == 1 and len(pm) == 1 and wl.dominates(pis[0][0], pm[0][0]) and
+               len(shape_ok_gate(wl, pis[0][0], pm[0][0])) == 1,
+               "the main schema could only refer to top-level names of the inputs, not to types nested in them", wl.loc())
 
     # ------------------------------------------------------------ R3
     roots = [k for k in prog.bodies if k.startswith(P) or k in ("schema::Schema::parse_list", "schema::Schema::parse_str_with_list")]
